@@ -31,7 +31,7 @@ limitations under the License.
     /*>- if method.throwing and not method.asynchronous -*/
         {{ " throws " }}
         /*>- for error in method.throwing -*/
-            {{ error.type_def.java.name ~ (", " if not loop.last) }}
+            {{ error.type_def.java.typename ~ (", " if not loop.last) }}
         /*>- endfor -*/
     /*>- endif -*/
     /*>- if method.static */ {
